@@ -4,6 +4,6 @@ check("C15", "model_checking",
       "(verifying / non-verifying command types, remote units with and without signwork, a unit of an unknown type) over the Unix socket, the TCP control "
       "listener and a mesh stream from a second daemon with freshly built JWTs; before/after snapshots of work list, the data directory, the runner pid "
       "and the bytes received decide whether the command took effect; compared with the vector.",
-      "Token classes are represented by a few concrete variants each (quick: a seeded stratified subset of about 185 of the 750 vectors - two rotating token classes in every command x connection x work-type cell plus valid and absent in the 20 protected cells - once; thorough: all 750 vectors x 2 variants). Trusted: golang-jwt, crypto/rsa. TLS-wrapped TCP "
+      "A sequence model (part c15seq: one token used again while time passes and across a restart; a verifier that remembers verified tokens is refuted by TLC) is replayed too: a 3-4 s token is accepted, then the identical string must be refused >= 1.5 s after its expiry, for all five commands over TCP and the mesh, for a submit token replayed on cancel/release/results, and after a daemon restart. Token classes are represented by a few concrete variants each (quick: a seeded stratified subset of about 185 of the 750 vectors - two rotating token classes in every command x connection x work-type cell plus valid and absent in the 20 protected cells - once; thorough: all 750 vectors x 2 variants). Trusted: golang-jwt, crypto/rsa. TLS-wrapped TCP "
       "control listeners are not a separate connection kind.",
       "TLA+ decision table, TLC exhaustive enumeration, vector replay into the real daemon (B1)", "E3 daemon / E4 tables (harness/ctl, cmd/vctl)", "DESIGN.md section 6 C15")
